@@ -704,3 +704,13 @@ package dragonboat
 //@ ensures result1 == nil && p.notifyCommit ==> result0.committedC != nil && len(result0.committedC) == 0 && cap(result0.committedC) == 1
 //@ ensures result1 == nil && p.ltick + timeoutTick <= MaxUint64 ==> result0.deadline == p.ltick + timeoutTick
 //@ ensures timeoutTick == 0 || old(p.pending) != nil || p.confChangeC == nil ==> result1 != nil
+
+// ---------------------------------------------------------------- C08: how far the log is compacted after a snapshot
+// Entries are never removed above the snapshot index, whatever overhead or explicit compaction index the request carries
+// (a first version of this clause said "strictly below": refuted by the verifier with overhead 0, where the code compacts
+// up to the snapshot index itself -- legitimate, the log reader keeps the term at its marker -- clause corrected, not the code).
+//@ func (n *node) getCompactionIndex [C08]
+//@ requires req.CompactionIndex < 18446744073709551615
+//@ ensures result1 ==> result0 <= index
+//@ ensures result1 && !req.OverrideCompaction ==> result0 == index - n.config.CompactionOverhead
+//@ ensures result1 && req.OverrideCompaction && req.CompactionIndex > 0 ==> result0 == req.CompactionIndex
